@@ -45,6 +45,13 @@ Proof.
   - injection H as <- <-. exists []. rewrite app_nil_r. split; [reflexivity|]. unfold weight; cbn. lia.
 Qed.
 
+(* the walk follows the predecessor array *)
+Fixpoint follows (pred : list (option nat)) (cur : nat) (p : list (nat * nat)) : Prop :=
+  match p with
+  | [] => nth cur pred None = None
+  | (e, y) :: p' => nth cur pred None = Some e /\ follows pred y p'
+  end.
+
 Section Chain.
   Variable h : graph.
   Variable R : list nat.
@@ -58,7 +65,7 @@ Section Chain.
 
   Lemma ap_chain l : tree_order h pred l -> (forall x, In x l -> nth x pred None = None -> x = s) ->
     forall cur fuel cyc acc, In cur l -> length l < fuel ->
-    exists p, walk h cur p s /\ NoDup (cur :: wverts p) /\ incl (cur :: wverts p) l /\
+    exists p, walk h cur p s /\ NoDup (cur :: wverts p) /\ incl (cur :: wverts p) l /\ follows pred cur p /\
       pred_chain fuel h R w pred cur cyc acc
       = Some (cyc ++ map trR (wedges p), (acc + weight w (map trR (wedges p)))%Z).
   Proof.
@@ -72,8 +79,8 @@ Section Chain.
         assert (Hse : se < length R) by (rewrite HR; eapply gl_joins_lt; eauto).
         rewrite (nth_error_nth' R 0%nat Hse).
         destruct (IH Hnone' p0 fuel (cyc ++ [nth se R 0%nat]) (acc + nth (nth se R 0%nat) w 0)%Z Hp0 ltac:(lia))
-          as (q & Hwq & Hndq & Hinq & Eq).
-        exists ((se, p0) :: q). split; [econstructor; eauto|]. split; [|split].
+          as (q & Hwq & Hndq & Hinq & Hfq & Eq).
+        exists ((se, p0) :: q). split; [econstructor; eauto|]. split; [|split; [|split; [split; [exact E|exact Hfq]|]]].
         * cbn [wverts map snd]. fold (wverts q). constructor; [|exact Hndq].
           intros Hc. apply Hnin, Hinq, Hc.
         * cbn [wverts map snd]. fold (wverts q). intros x [<-|Hx]; [left; reflexivity|right; apply Hinq, Hx].
@@ -86,10 +93,10 @@ Section Chain.
           rewrite Eq. cbn [wedges map fst]. fold (wedges q). rewrite <- app_assoc. cbn [app].
           rewrite rl_weight_cons. unfold wt. f_equal. f_equal. lia.
       + assert (Hus : u = s) by (apply Hnone; [left; reflexivity|exact E]). subst u.
-        exists []. split; [constructor; exact Hs|]. split; [repeat constructor; intros []|]. split.
+        exists []. split; [constructor; exact Hs|]. split; [repeat constructor; intros []|]. split; [|split; [exact E|]].
         * intros x [<-|[]]. left; reflexivity.
         * cbn [wedges map]. rewrite app_nil_r. unfold weight; cbn [map fold_right]. rewrite Z.add_0_r. reflexivity.
-    - destruct (IH Hnone' cur fuel cyc acc Hin ltac:(lia)) as (q & H1 & H2 & H3 & H4).
+    - destruct (IH Hnone' cur fuel cyc acc Hin ltac:(lia)) as (q & H1 & H2 & H3 & H4 & H5).
       exists q. repeat split; auto. intros x Hx. right. apply H3, Hx.
   Qed.
 End Chain.
@@ -196,7 +203,7 @@ Section Run.
     { rewrite <- (ap_nv_h g sp Hsub). apply Nat.lt_succ_r.
       apply ap_NoDup_bounded_length; [eapply tree_order_NoDup, (pt_tree _ _ _ _ HT)|apply (pt_range _ _ _ _ HT)]. }
     destruct (ap_chain h R (eq_sym (ap_ne_h g sp Hsub)) w v Hvh pred ord (pt_tree _ _ _ _ HT) Hnone
-                u (S (nv g)) [] 0%Z Huo Hlen) as (q & Hwq & Hndq & _ & Eq).
+                u (S (nv g)) [] 0%Z Huo Hlen) as (q & Hwq & Hndq & _ & _ & Eq).
     rewrite Eq in Ech. injection Ech as <- _. cbn [app].
     (* translate the path to g *)
     assert (Hdq : Forall (domR sp) (wedges q)).
